@@ -1037,7 +1037,9 @@ class Runner:
     def finish(self):
         ctx = self.ctx
         replies = ctx.lean("Bytes").ask(self.lines)
-        dead = set()  # histories (by id) that already diverged from the Spec
+        dead = set()  # histories (by id) no longer compared
+        spec_dead = set()  # histories that diverged from the Spec through the known aliasing defect
+        self.post_mismatch = []
         for line, rec, rep in zip(self.lines, self.records, replies):
             if rec is None:
                 if rep != "ok":
@@ -1045,6 +1047,17 @@ class Runner:
                 continue
             hist = rec["hist"]
             if id(hist) in dead:
+                continue
+            if id(hist) in spec_dead:
+                # the history already left the flat semantics through the known aliasing defect: the aliasing
+                # model must still predict the real code exactly
+                m_part = rep[2:].split(" | S ")[0]
+                m_reply, m_digest = m_part.split(" ; ")
+                self.ctx.count("post-divergence-steps")
+                if (m_reply, m_digest) != rec["impl"]:
+                    dead.add(id(hist))
+                    self.ctx.count("post-divergence-model-mismatch")
+                    self.post_mismatch.append((line, [op_line(o) for o in hist["ops"][: rec["i"] + 1]], rec["impl"], (m_reply, m_digest)))
                 continue
             if not rep.startswith("M "):
                 raise RuntimeError(f"driver: {line!r} -> {rep!r}")
@@ -1080,8 +1093,8 @@ class Runner:
                 "transcript": [op_line(o) for o in hist["ops"][: rec["i"] + 1]],
             }
             if not impl_vs_spec:
-                dead.add(id(hist))
                 if impl_vs_model and self.alias_live:
+                    spec_dead.add(id(hist))
                     key = KNOWN_ALIAS_KEY
                     what = (
                         "ByteVec.set_slice on a range aligned exactly on an existing chunk stores the value ByteVec object "
@@ -1090,6 +1103,7 @@ class Runner:
                         f"[{hist['tag']}]: real `{r_impl} ; {strip_layout(d_impl)}` vs flat `{s_reply} ; {s_digest}`"
                     )
                 else:
+                    dead.add(id(hist))
                     aspect = "reply" if r_impl != s_reply else ("length" if [p.split(":")[0] for p in strip_layout(d_impl).split(" ")] != [p.split(":")[0] for p in s_digest.split(" ")] else "content")
                     victim = ""
                     if aspect != "reply":
@@ -1110,6 +1124,10 @@ class Runner:
                 f"agrees with it, at `{line}` (step {rec['i']} of {[op_line(o) for o in hist['ops'][: rec['i'] + 1]]}): "
                 f"real `{r_impl} ; {d_impl}` vs model `{m_reply} ; {m_digest}`"
             )
+        import os
+        if os.environ.get("C07_DEBUG") and self.post_mismatch:
+            for pm in self.post_mismatch[:5]:
+                print("POST-MISMATCH", pm)
         n = len(self.lines)
         self.lines, self.records, self.histories = [], [], []
         return n
